@@ -847,6 +847,17 @@ def parser_phases(ctx):
     # the shorthand window is exactly roots_parsed && !where_parsed
     pc = ctx.anchor_hir("parser::Parser::parse_cond")
     import interp
+    try:
+        n_ev, problems = __import__("c03").shorthand_by_evaluation(ctx)
+        n += n_ev
+        ctx.obligation(not problems)
+        if problems:
+            ctx.violation("phases/shorthand-window", ctx.where("parser::Parser::parse_cond"),
+                          "a bare boolean column becomes `column = true` exactly inside WHERE (roots_parsed && !where_parsed); %s" % "; ".join(problems[:3]))
+        ctx.covered("clause order and phase flags of Parser::parse; shorthand window of parse_cond (evaluated: 3 leaves x 4 flag valuations x 0..2 NOTs)", n, distinct_keys=order + ["writers", "window"])
+        return
+    except interp.Undecided:
+        pass
     # the shorthand sites: a comparison `.. = true` built from a literal "true" (Expr::op(.., Op::Eq, Expr::value("true")))
     sites = []
     for c in walk_exprs(pc):
